@@ -132,9 +132,25 @@ func (e *Encoder) writeValue(val reflect.Value, tagType byte) error {
 					}
 				}
 			case reflect.Uint8:
-				data = val.Bytes()
+				switch val.Kind() {
+				case reflect.Slice:
+					data = val.Bytes()
+				default: // fixed-size array, possibly not addressable
+					data = make([]byte, n)
+					for i := range data {
+						data[i] = byte(val.Index(i).Uint())
+					}
+				}
 			case reflect.Int8:
-				data = unsafe.Slice((*byte)(val.UnsafePointer()), val.Len())
+				switch val.Kind() {
+				case reflect.Slice:
+					data = unsafe.Slice((*byte)(val.UnsafePointer()), val.Len())
+				default: // fixed-size array, possibly not addressable
+					data = make([]byte, n)
+					for i := range data {
+						data[i] = byte(val.Index(i).Int())
+					}
+				}
 			}
 			_, err := e.w.Write(data)
 			return err
